@@ -21,7 +21,7 @@ class ScriptedRNG:
         return self.idx0.copy()
 
 
-def build_population(ks, ns, dtype, bf):
+def build_population(ks, ns, dtype, bf, den=4):
     from aspire.samples import SMCSamples
     xp = smcdrv.get_xp(ns)
     n = len(ks)
@@ -33,16 +33,27 @@ def build_population(ks, ns, dtype, bf):
     ll = kk * math.log(2.0) + 3.0 * i
     lq = ll + lp - kk * math.log(2.0)
     ll = np.where(dead, -np.inf, ll)        # zero likelihood: incremental weight 0 for any move up
-    s = SMCSamples(x, log_likelihood=ll, log_prior=lp, log_q=lq, xp=xp, dtype=dtype, beta=bf / 4.0)
+    s = SMCSamples(x, log_likelihood=ll, log_prior=lp, log_q=lq, xp=xp, dtype=dtype, beta=bf / float(den))
     return s, dict(x=x, ll=ll, lp=lp, lq=lq)
 
 
 def replay(verdict, tier, seed):
-    consts = {"Ks": "<- QuickKs" if tier == "quick" else "<- DeepKs", "NMin": "= 2",
+    consts = {"Den": "= 4", "MaxMove": "= 4", "Ks": "<- QuickKs" if tier == "quick" else "<- DeepKs", "NMin": "= 2",
               "NMax": "= 3" if tier == "quick" else "= 4", "Betas": "= {0, 1, 2, 4}" if tier == "quick" else "= {0, 1, 2, 3, 4}",
               "MaxIdx": "= 6" if tier == "quick" else "= 10"}
     cases, r, ncases = tlacases.export_cases("MC_Resample", consts, name="resample", timeout=3000)
-    nss = ["numpy", ["torch", "jax"][seed % 2]] if tier == "quick" else ["numpy", "torch", "jax"]
+    for c in cases:
+        c["den"] = 4
+    # fine ladder: temperature moves of 2^-21 and 2^-20 on log-weights of magnitude ~1e7
+    fconsts = {"Den": "<- FineDen", "MaxMove": "= 2", "Ks": "<- FineKs", "NMin": "= 2",
+               "NMax": "= 3" if tier == "quick" else "= 4", "Betas": "<- FineBetas",
+               "MaxIdx": "= 3" if tier == "quick" else "= 6"}
+    fcases, fr, fncases = tlacases.export_cases("MC_Resample", fconsts, name="resample-fine", timeout=3000)
+    for c in fcases:
+        c["den"] = 2097152
+    cases = cases + fcases
+    ncases += fncases
+    nss = ["numpy", "torch", "jax"]
     combos = [(ns, dt) for ns in nss for dt in ("float64", "float32")]
     n_eval = 0
     distinct = set()
@@ -54,10 +65,11 @@ def replay(verdict, tier, seed):
             n = len(ks)
             scen = {"builder": "resample_case", "params": {"case": c, "ns": ns, "dtype": dt}}
             try:
-                s, src = build_population(ks, ns, dt, bf)
+                den = float(c["den"])
+                s, src = build_population(ks, ns, dt, bf, den)
                 rng = ScriptedRNG([j - 1 for j in idx])
                 pass_size = size if (size != n or (ci % 3 == 0)) else None
-                out = s.resample(bt / 4.0, n_samples=pass_size, rng=rng)
+                out = s.resample(bt / den, n_samples=pass_size, rng=rng)
             except Exception as ex:
                 verdict.violation(f"NeverRaises|resample|{ns}/{dt}", f"resample raised {type(ex).__name__}: {ex} on case {c}", scen)
                 continue
@@ -66,17 +78,17 @@ def replay(verdict, tier, seed):
                 if rng.calls or out is not s:
                     verdict.violation("NewBetaAndSize|identity-branch", "same temperature and no size requested must return the population unchanged", scen)
                 continue
-            distinct.add((n, bt - bf, size - n, tuple(sorted(ks)), ns, dt))
+            distinct.add((n, bt - bf, c["den"], size - n, tuple(sorted(ks)), ns, dt))
             if len(rng.calls) != 1:
                 verdict.violation("ProbProportional|choice-calls", f"expected exactly one draw of the index vector, saw {len(rng.calls)}", scen)
                 continue
             call = rng.calls[0]
             p = call["p"]
             exp_p = np.asarray(c["wnum"], dtype=np.float64) / float(c["wden"])
-            if p is None or len(p) != n or not np.allclose(p, exp_p, rtol=0, atol=tol * 10) or abs(p.sum() - 1) > 1e-6 \
+            if p is None or len(p) != n or not np.allclose(p, exp_p, rtol=0, atol=tol * 10) or abs(p.sum() - 1) > (1e-6 if dt == "float64" else 2e-5) \
                or call["a"] != n or call["size"] != size or call["replace"] is not True:
                 verdict.violation(f"ProbProportional|{ns}/{dt}",
-                                  f"selection probabilities {None if p is None else p.tolist()} != exact {exp_p.tolist()} (ks={ks}, beta {bf}/4->{bt}/4, size={size})", scen)
+                                  f"selection probabilities {None if p is None else p.tolist()} != exact {exp_p.tolist()} (ks={ks}, beta {bf}/{c['den']}->{bt}/{c['den']}, size={size})", scen)
             rows = [j - 1 for j in c["rows"]]
             for fld, got in (("x", out.x), ("ll", out.log_likelihood), ("lp", out.log_prior), ("lq", out.log_q)):
                 g = smcdrv.to_np(got).astype(np.float64)
@@ -84,10 +96,10 @@ def replay(verdict, tier, seed):
                 if g.shape[0] != size or not np.array_equal(g, srcv[rows]):  # -inf == -inf is True
                     verdict.violation(f"RowCopy|{fld}", f"field {fld} of the resampled population is not the source rows {rows} (ns={ns})", scen)
             ob = float(out.beta)
-            if ob != bt / 4.0 or len(out) != size or smcdrv.width_of(out.x) != (64 if dt == "float64" else 32) or smcdrv.ns_of(out.x) != ns:
-                verdict.violation(f"NewBetaAndSize|{ns}/{dt}", f"beta {ob} (want {bt/4.0}), size {len(out)} (want {size}), dtype {out.x.dtype}", scen)
+            if ob != bt / den or len(out) != size or smcdrv.width_of(out.x) != (64 if dt == "float64" else 32) or smcdrv.ns_of(out.x) != ns:
+                verdict.violation(f"NewBetaAndSize|{ns}/{dt}", f"beta {ob} (want {bt/den}), size {len(out)} (want {size}), dtype {out.x.dtype}", scen)
     # binding self-test: a deliberately wrong reference must be rejected
-    c0 = next(c for c in cases if c["bt"] > c["bf"] and len(set(c["ks"])) > 1)
+    c0 = next(c for c in cases if c["den"] == 4 and c["bt"] > c["bf"] and len(set(c["ks"])) > 1)
     s, _ = build_population(c0["ks"], "numpy", "float64", c0["bf"])
     rng = ScriptedRNG([j - 1 for j in c0["idx"]])
     s.resample(c0["bt"] / 4.0, n_samples=c0["size"], rng=rng)
@@ -95,6 +107,6 @@ def replay(verdict, tier, seed):
     st_ok = not np.allclose(rng.calls[0]["p"], wrong, atol=1e-11)
     if not st_ok:
         raise tlacases.MachineryError("C09 self-test: reversed reference accepted")
-    return {"tlc_states": r.distinct, "tlc_transitions": r.generated, "resample_cases": ncases,
+    return {"tlc_states": r.distinct + fr.distinct, "tlc_transitions": r.generated + fr.generated, "resample_fine_ladder_cases": fncases, "resample_cases": ncases,
             "resample_replays": n_eval, "resample_distinct_nontrivial": len(distinct),
             "resample_selftest": "reversed reference rejected"}
